@@ -82,6 +82,13 @@ def run_pres(ctx, progs):
                 if v.strip():
                     ctx.broken_ties.append((f"c03pres {pas} theorem instance",
                                             f"{f[0]}: hypotheses hold but the conclusion evaluates to false for {v} ({key})"))
+            elif key == "unscoped_real":
+                if v.strip():
+                    k0 = f[0].rsplit("|", 1)[0]
+                    ctx.report({"oracle": "scoped", "pass": pas},
+                               f"the real {pas} output mentions a variable that no binder binds although the pass input is scope-closed "
+                               f"and inside the pass hypothesis (functions: {v})",
+                               {"id": k0, "src": progs.get(k0, {}).get("src"), "functions": v})
             elif key == "judge_diff":
                 if v.strip():
                     ctx.broken_ties.append((f"c03pres {pas} tie", f"{f[0]}: the model's output and the real {pas} dump are judged "
